@@ -18,7 +18,7 @@ from simverif.core.rng import stream
 
 ID = 'C19'
 LEVEL = 'exploration'
-TIERS = {'quick': {'runs': 1500}, 'thorough': {'seconds': 600}}
+TIERS = {'quick': {'runs': 4000}, 'thorough': {'seconds': 600}}
 DET_PAIRS_PER_SLOT = 3
 RULE = ("one run = one seeded history of stores (own stream published, stream downloaded with/without "
         "`file` row and with all/some blobs finished, network-seeded bare blobs, clock advances) interleaved "
@@ -56,7 +56,7 @@ EXPECTED_PROBES = ['pass_content_over', 'pass_content_within', 'pass_content_equ
 
 MIB = be.MIB
 # strict reading switch: make the network pass deleting the descriptor blob of a *stored* stream a violation
-STRICT_STREAM_SD = False
+STRICT_STREAM_SD = os.environ.get('VERIF_C19_STRICT_SD') == '1'
 
 
 # ---------------------------------------------------------------------------------------------------
@@ -245,6 +245,7 @@ def execute(scenario, keep_trace=False):
     from lbry.blob.blob_info import BlobInfo
     from lbry.blob.disk_space_manager import DiskSpaceManager
     from lbry.stream.descriptor import StreamDescriptor
+    be.freeze_heap_once()
 
     run = Run(scenario, keep_trace)
     loop = run.new_loop(max_steps=600_000)
@@ -279,8 +280,8 @@ def execute(scenario, keep_trace=False):
                 hashes = list(blob_hashes)
                 if state['deleted'] is not None:
                     state['deleted'].extend(hashes)
-                else:
-                    run.violation('C19.delete_outside_pass', f'delete_blobs({len(hashes)} hashes) outside a cleanup pass')
+                else:   # the observation seam no longer brackets the deletions: a harness problem, not a verdict
+                    raise AssertionError(f'harness: delete_blobs({len(hashes)} hashes) outside an observed class pass')
                 return await orig_delete_blobs(blob_hashes, delete_from_db)
             bm.delete_blobs = observed_delete_blobs
 
@@ -438,16 +439,20 @@ def execute(scenario, keep_trace=False):
                     clean_done.clear()
                     await dsm.start()
                     await asyncio.wait_for(clean_done.wait(), 4000)
+                    task = dsm.task
+                    await asyncio.sleep(0)
+                    failed = task.exception() if task.done() and not task.cancelled() else None
                     await dsm.stop()
                     await asyncio.sleep(0)
+                    if failed is not None:
+                        raise failed
                 else:
                     ret = await dsm.clean()
                     run.ev('clean-return', repr(ret))
                 if run.violations:
                     return False
                 if [c for c, _n in state['passes']] != ['content', 'network']:
-                    run.violation('C19.pass_structure', f'clean() ran class passes {state["passes"]}')
-                    return False
+                    raise AssertionError(f'harness: clean() ran class passes {state["passes"]}, cannot attribute deletions')
                 if op.get('again'):
                     run.probes['second_pass'] += 1
                     state['passes'] = []
@@ -550,15 +555,12 @@ def execute(scenario, keep_trace=False):
                         return run.violation('C19.return_value', f'{cls} pass returned {ret}, deleted {len(deleted)}', **site)
                 else:
                     return run.violation('C19.return_value', f'{cls} pass returned {ret!r}', **site)
-                # -- deleted means gone (row and file), everything else untouched
-                for h in deleted:
-                    if h in post.rows or h in post_files:
-                        return run.violation('C19.not_deleted', f'{cls} pass reported {short(h)} deleted but its '
-                                             f'{"row" if h in post.rows else "file"} is still there', **site)
-                for h, row in pre.rows.items():
-                    if h not in all_deleted and post.rows.get(h) != row:
-                        return run.violation('C19.row_changed', f'{cls} pass changed the row of {short(h)}: {row} -> '
-                                             f'{post.rows.get(h)}', **site)
+                # -- observations outside the statement (counted, never a verdict): a deleted blob whose row or
+                #    file survived (usage after the pass is judged from the tables below anyway), rows rewritten
+                if any(h in post.rows or h in post_files for h in deleted):
+                    run.probes['obs_deleted_but_still_present'] += 1
+                if any(h not in all_deleted and post.rows.get(h) != row for h, row in pre.rows.items()):
+                    run.probes['obs_row_rewritten'] += 1
                 if unlimited or used <= limit:
                     return None
                 # -- the class was over its limit under the pass's own reading
@@ -602,11 +604,12 @@ def execute(scenario, keep_trace=False):
                     state['stores_since_round'] += 1
                 elif kind == 'age':
                     loop.advance(op['dt'])
+                    run.faults['clock_advance'] += 1
                     run.ev('age', op['dt'])
                 elif kind == 'clean':
                     try:
                         ok = await do_clean(op, n)
-                    except (asyncio.CancelledError, SimBudget, SimIdle):
+                    except (asyncio.CancelledError, SimBudget, SimIdle, AssertionError):
                         raise
                     except Exception as e:  # noqa
                         run.ev('clean-exception', type(e).__name__)
